@@ -7,7 +7,7 @@
 (* here by the runner: TraceWire recomputes Repr(value) when it judges the *)
 (* recorded observation.                                                   *)
 (*                                                                         *)
-(* Format : "msgpack" | "cbor" | "bencode" | "bson"                        *)
+(* Format : "msgpack" | "cbor" | "bencode" | "bson" | "asn1_ber"           *)
 (* Part   : "all" = both of: "atoms"  every boundary scalar, all encodings (cbor: up to 2   *)
 (*                   chunks for indefinite strings, + empty chunks if Wide)*)
 (*          "nested" containers of depth 1 and 2 over a small atom set,    *)
@@ -24,6 +24,8 @@ CBa == INSTANCE Wire_cbor WITH MaxChunks <- 2, EmptyChunks <- Wide
 CBn == INSTANCE Wire_cbor WITH MaxChunks <- 0, EmptyChunks <- FALSE
 BC  == INSTANCE Wire_bencode
 BS  == INSTANCE Wire_bson
+BRa == INSTANCE Wire_ber WITH MaxSegs <- 2
+BRn == INSTANCE Wire_ber WITH MaxSegs <- 0
 
 (****************************** scalars ***********************************)
 F(n) == [i \in 1..n |-> 255]
@@ -115,6 +117,23 @@ BsonSpecials ==
 InBsonStr(v) == RLen(v.s) <= 65536
 Doc1(v) == Map(<<KA>>, <<v>>)
 
+D1S(S) == {Arr(a) : a \in Seqs(S, 0) \cup Seqs(S, 1) \cup Seqs(S, 2)}
+Ber(ty) == [t |-> "ber", ty |-> ty]
+BerStr(tag, s) == [t |-> "ber", ty |-> "str", tag |-> tag, s |-> s]
+BerSet(a) == [t |-> "ber", ty |-> "set", a |-> a]
+BerCtx(tag, a) == [t |-> "ber", ty |-> "ctx", tag |-> tag, a |-> a]
+BerOid(arcs) == [t |-> "ber", ty |-> "oid", arcs |-> arcs]
+BerUniverse(P) ==
+    IF P = "atoms" THEN Scalars \cup {v \in IntsAll : ~v.neg \/ SFits(v, 8)}
+                        \cup {Str(Rep(n, X)) : n \in {0, 1, 2, 127, 128, 255, 256, 65535, 65536}} \cup {Str(<<97, 98>>), Str(<<195, 169, 240, 159, 152, 128>>)}
+                        \cup {Bin(Rep(n, 65)) : n \in {0, 1, 127, 128, 256}} \cup {Bin(<<104, 105>>), Bin(<<0, 1, 127>>)}
+                        \cup {BerStr(19, <<97, 32, 98>>), BerStr(22, <<97, 64, 98>>), BerStr(22, <<>>)}
+                        \cup {BerOid(<<1, 2, 840, 113549>>), BerOid(<<2, 5, 4, 3>>), BerOid(<<0, 39>>), BerOid(<<1, 3, 6, 1, 4, 1, 311, 21, 20>>)}
+    ELSE D1S({Null, One, Str(<<97>>)}) \cup {Arr(<<x>>) : x \in D1S({Null, One})} \cup {Arr(<<x, Bool(TRUE)>>) : x \in D1S({One})}
+         \cup {BerSet(<<>>), BerSet(<<One, Null>>), BerCtx(0, <<One>>), BerCtx(3, <<>>), BerCtx(31, <<Null>>), BerCtx(200, <<One, Str(<<97>>)>>),
+               Arr(<<BerCtx(0, <<>>), BerSet(<<One>>)>>), Arr(<<BerOid(<<2, 5, 4, 3>>), BerStr(19, <<97>>)>>),
+               Arr(<<Bin(<<104, 105>>), Null>>), Arr(<<Arr(<<Arr(<<>>)>>)>>), Arr(<<Str(Rep(200, X))>>)}
+
 Universe(P) ==
     CASE Format = "msgpack" ->
            IF P = "atoms" THEN Scalars \cup {v \in IntsAll : InMsgpack(v)} \cup Strs \cup Bins \cup Floats \cup Exts
@@ -144,17 +163,20 @@ Universe(P) ==
                 \cup {Map(<<KA, KB>>, <<x, y>>) : x, y \in {Arr(<<>>), Map(<<>>, <<>>), Arr(<<IntV(FALSE, <<1>>)>>)}}
                 \cup {Doc1(Arr([i \in 1..11 |-> IntV(FALSE, <<i>>)])), Doc1(Arr(<<Bx("undef"), Bx("minkey")>>)),
                       Doc1(Map(<<KA>>, <<[t |-> "bson", ty |-> "binary", sub |-> 0, x |-> <<104, 105>>]>>))}
+      [] Format = "asn1_ber" -> BerUniverse(P)
 
 EncOf(P, v) ==
     CASE Format = "msgpack" -> MP!Enc(v)
       [] Format = "cbor"    -> IF P = "atoms" \/ v \in IndefNested THEN CBa!Enc(v) ELSE CBn!Enc(v)
       [] Format = "bencode" -> BC!Enc(v)
       [] Format = "bson"    -> BS!Enc(v)
+      [] Format = "asn1_ber" -> IF P = "atoms" \/ v = Arr(<<Bin(<<104, 105>>), Null>>) THEN BRa!Enc(v) ELSE BRn!Enc(v)
 ReprOf(v) ==
     CASE Format = "msgpack" -> MP!Repr(v)
       [] Format = "cbor"    -> CBn!Repr(v)
       [] Format = "bencode" -> BC!Repr(v)
       [] Format = "bson"    -> BS!Repr(v)
+      [] Format = "asn1_ber" -> BRn!Repr(v)
 
 Big(P) == CASE Format = "msgpack" /\ P = "atoms" -> BigVals({7, 15, 16})
             [] Format = "cbor" /\ P = "atoms" -> BigVals({7, 23, 24})
